@@ -94,6 +94,12 @@ func buildC02(tier string, seed int64) *Family {
 			add("//*[" + pick(r, inner) + "[" + a + "] and not(" + pick(r, inner) + "[" + b + "])]")
 		}
 	}
+	// a descendant-type step with a predicate, followed by another descendant-type step: a
+	// match that fails the predicate may contain one that passes it
+	for _, t := range []string{"descendant::a[@a]/descendant::b", "descendant::a[b]/descendant::*", "descendant-or-self::a[@a]//b", "/descendant::a[not(@a)]/descendant::a",
+		"descendant::*[@a]/descendant-or-self::b", "descendant::a[. = '1']//*", "descendant::a[a]/descendant::a[@a]/descendant::*"} {
+		add(t)
+	}
 	// elements with several attributes: wildcard attribute predicates leave a half-consumed
 	// attribute cursor behind for the next candidate
 	acfg := docCfg{N: 3, A: 2, Names: "a,b", Pool: cfg.Pool}
